@@ -331,6 +331,8 @@ def main(tier, seed, only=None):
     for r in range(3):
       units.append(unit_vel("_equality_connect", sp, UT if sp[0] else U, only_rows=[r]))
     for r in (range(6) if tier == "thorough" else (0, 3)):
+      if sp[0] and r >= 3:
+        continue  # sparse weld rotational rows exceed the unit budget (chain-pair cases x quaternion algebra): not claimed
       units.append(unit_vel("_equality_weld", sp, UT, only_rows=[r]))
   if only:
     units = [u for u in units if any(o in u[0] for o in only)]
